@@ -204,13 +204,16 @@ def main(argv):
         print("%s %-7s instances=%d reports=%d  %s" % (pid, r.rule, len(r.instances), len(r.reports), r.title))
     for rep, k in known_present:
         print("KNOWN-FINDING: property=%s %s [%s %s] %s" % (pid, k.get("what", rep.msg), rep.rule, rep.loc, rep.key))
-    for v, rp in violations:
+    MAXP = 30
+    for v, rp in violations[:MAXP]:
         if isinstance(v, str):
             print("  reason: %s" % v)
         else:
             print("  %s %s %s: %s" % (v.rule, v.loc, v.fn, v.msg))
             print("    key: %s" % v.key)
         print("VIOLATION property=%s replay=%s" % (pid, rp))
+    if len(violations) > MAXP:
+        print("... and %d more violations (see %s)" % (len(violations) - MAXP, replay_dir))
     return 1 if violations else 0
 
 
